@@ -127,7 +127,7 @@ func vClientLines(now int64, full bool) []VLine {
 		"PASS :captcha="+tok(fmt.Sprintf("okay:login:%d:", now)), "PASS :captcha="+tok(fmt.Sprintf("login:%d:", now)), "PASS :captcha="+vCaptcha(vSecret, fmt.Sprintf("okay:login:%d:", now), "authXXXX", true),
 		"PASS :captcha="+tok(fmt.Sprintf("okay:login:%d:", now-int64(6*time.Minute))), "PASS :captcha=x.y", "PASS :captcha=!.!.!")
 	add("oper", "OPER root operpw", "OPER root wrong", "OPER nobody operpw", "OPER root", "OPER root :", "OPER", "OPER admin otherpw")
-	add("join", "JOIN #c", "JOIN #C", "JOIN #d", "JOIN #new", "JOIN #c,#d", "JOIN #c key", "JOIN #c KEY", "JOIN #c wrong", "JOIN #c,#d key,key2", "JOIN #new,#c", "JOIN #new,#d,#c", "JOIN #d,#new", "JOIN c", "JOIN #", "JOIN", "JOIN :", "JOIN #c,", "JOIN ,", "JOIN #c,#c",
+	add("join", "JOIN #c", "JOIN #C", "JOIN #d", "JOIN #new", "JOIN #c,#d", "JOIN #c key", "JOIN #c KEY", "JOIN #c wrong", "JOIN #c,#d key,key2", "JOIN #new,#c", "JOIN #new,#d,#c", "JOIN #d,#new", "JOIN #new,#new2", "JOIN c", "JOIN #", "JOIN", "JOIN :", "JOIN #c,", "JOIN ,", "JOIN #c,#c",
 		"JOIN #"+strings.Repeat("x", 32), "JOIN #"+strings.Repeat("x", 33), "JOIN #a\x07b", "JOIN 0",
 		"JOIN #c "+tok(okJoin), "JOIN #c "+vCaptcha(vSecret, okJoin, "authXXXX", true), "JOIN #c "+tok(fmt.Sprintf("join:%d:#c", now)),
 		"JOIN #c "+tok(fmt.Sprintf("login:%d:", now)), "JOIN #c "+tok(fmt.Sprintf("okay:join:%d:#c", now-int64(6*time.Minute))),
@@ -155,6 +155,10 @@ func vClientLines(now int64, full bool) []VLine {
 	add("server", "SERVER services.robustirc.net 1 :Services", "SERVER s", "SERVER", "SERVER a b", "SERVER : :")
 	add("garbage", ":", ": ", " ", "", ":p", ":prefix", ":prefix ", "join #c", ":a!ua@robust/0x1 PRIVMSG #c :spoof", ":b PRIVMSG #c :spoof", ":b NICK z", "\x01", "123", "001 a :x", "PANIC", "FOO", "FOO a b c", "é", "PRIVMSG\t#c :x", "SJOIN 1 #c :a", "SVSNICK a z 1", "SVSJOIN a #c", ":ChanServ KILL a :x", "ERROR :x", "CAP LS", "NICK\x00a",
 		"\nPRIVMSG #c :hi\n:b!ub@robust/0x5 PRIVMSG #c :forged", "\r\nQUIT :x", "\n", "\r", "\x00", "\nNICK z", "PRIVMSG #c :a\nb\rc\x00d")
+	// CR / LF / NUL behind more than 512 bytes that the server ignores or echoes in a short form
+	add("text", ":"+strings.Repeat("x", 600)+" PRIVMSG #c :hi\r\n:b!ub@robust/0x5 PRIVMSG #c :forged",
+		":"+strings.Repeat("x", 600)+" PRIVMSG b :hi\nQUIT :forged", ":"+strings.Repeat("x", 700)+" TOPIC #c :t\x00u",
+		"JOIN "+strings.Repeat("#zz,", 140)+"#bad\rname", "PRIVMSG "+strings.Repeat("b,", 300)+"b :x\r\nPRIVMSG #c :forged")
 	for _, t := range vTexts {
 		add("text", "PRIVMSG #c :"+t, "PRIVMSG b :"+t, "TOPIC #c :"+t, "KICK #c b :"+t, "PART #c :"+t, "QUIT :"+t, "AWAY :"+t, "KNOCK #c :"+t, "USER u 0 * :"+t, "MODE #c +k "+t, "MODE #c +b "+t, "NS "+t, "FOO"+t+" x", "JOIN #c "+t, "JOIN #n"+t, "NICK n"+t, "PING :"+t, "INVITE b #c"+t, "WHOIS "+t, "OPER "+t+" "+t, "PASS :"+t)
 	}
@@ -241,12 +245,12 @@ func vServiceLines(pseudo []string) []VLine {
 		"QUIT :link closing", "QUIT")
 	for _, p := range append([]string{srv}, pseudo...) {
 		pre := ":" + p + " "
-		add(pre+"JOIN #c", pre+"JOIN #d", pre+"JOIN #new", pre+"JOIN #c,#d", pre+"JOIN c",
+		add(pre+"JOIN #c", pre+"JOIN #d", pre+"JOIN #new", pre+"JOIN #c,#d", pre+"JOIN #new,#new2", pre+"JOIN c",
 			pre+"PART #c", pre+"PART #d", pre+"PART #none", pre+"PART #c,#d",
 			pre+"KICK #c a :bye", pre+"KICK #c b :bye", pre+"KICK #c nobody :x", pre+"KICK #none a :x", pre+"KICK #d b :", pre+"KICK #c "+p+" :self",
 			pre+"KILL a :bye", pre+"KILL b :bye", pre+"KILL nobody :x", pre+"KILL c :x", pre+"KILL a", pre+"KILL "+p+" :self",
 			pre+"MODE #c +o a", pre+"MODE #c -o a", pre+"MODE #c +o b", pre+"MODE #c +i", pre+"MODE #c -i", pre+"MODE #c +r", pre+"MODE #c +t", pre+"MODE #c -s", pre+"MODE #c +o nobody", pre+"MODE #none +i", pre+"MODE #c +k key", pre+"MODE #c +ntr", pre+"MODE #c", pre+"MODE #d +o b",
-			pre+"TOPIC #c "+p+" 1422134861 :services topic", pre+"TOPIC #c "+p+" 0 :", pre+"TOPIC #c "+p+" abc :bad ts", pre+"TOPIC #none "+p+" 1 :x", pre+"TOPIC #d "+p+" 1422134861 :t",
+			pre+"TOPIC #c "+p+" 1422134861 :services topic", pre+"TOPIC #c "+p+" 0 :", pre+"TOPIC #c "+p+" 0 :topic with timestamp zero", pre+"TOPIC #c "+p+" abc :bad ts", pre+"TOPIC #none "+p+" 1 :x", pre+"TOPIC #d "+p+" 1422134861 :t",
 			pre+"PRIVMSG #c :hi from services", pre+"PRIVMSG a :hi", pre+"PRIVMSG b :hi", pre+"PRIVMSG nobody :x", pre+"PRIVMSG #none :x", pre+"NOTICE a :note", pre+"NOTICE #c :note", pre+"PRIVMSG a :", pre+"PRIVMSG", pre+"NOTICE #d :x",
 			pre+"INVITE a #c", pre+"INVITE b #c", pre+"INVITE c #c", pre+"INVITE nobody #c", pre+"INVITE a #none", pre+"INVITE c #d",
 			pre+"QUIT :bye", pre+"QUIT")
